@@ -343,90 +343,23 @@ c11s_harness!(stub c11_s_pick_sending, sending_pick::<false, 1, 1>());
 c11s_harness!(stub c11_s_pick_data_sent, data_sent_pick::<false, 1, 1>());
 c11s_harness!(real c11_s_real_pick_sending_s0c0, sending_pick::<true, 0, 0>());
 c11s_harness!(real c11_s_real_pick_sending_s1c1, sending_pick::<true, 1, 1>());
-c11s_harness!(real c11_s_real_pick_sending_s2c1, sending_pick::<true, 2, 1>());
 c11s_harness!(real c11_s_real_pick_data_sent_s0c0, data_sent_pick::<true, 0, 0>());
 c11s_harness!(real c11_s_real_pick_data_sent_s1c1, data_sent_pick::<true, 1, 1>());
-c11s_harness!(real c11_s_real_pick_data_sent_s2c1, data_sent_pick::<true, 2, 1>());
 
 // ------------------------------------------------------------------------------------------------
 // Observers / builders for the harnesses in other modules (fields of the senders are private here).
 
-pub(crate) const C11S_SENDING: u8 = 1;
-pub(crate) const C11S_DATA_SENT: u8 = 2;
+const C11S_SENDING: u8 = 1;
+const C11S_DATA_SENT: u8 = 2;
 
 impl<TX> ArcSender<TX> {
-    /// A sender in state KIND (Sending / DataSent) around an arbitrary JS send buffer.
-    /// Returns (sender, boundary offsets, boundary colours, shutdown?, FIN state code).
-    pub(crate) fn c11s_any<const KIND: u8, const NS: usize, const NC: usize>(
-        sid: StreamId,
-        broker: TX,
-        tx_wakers: ArcSendWakers,
-    ) -> (ArcSender<TX>, [u64; NS], [u8; NS], bool, u8) {
-        let (sndbuf, offs, cols) = SB::c11s_any::<NS, NC>();
-        if KIND == C11S_SENDING {
-            let shutdown: bool = kani::any();
-            let s = SendingSender {
-                stream_id: sid,
-                sndbuf,
-                flush_waker: None,
-                shutdown_waker: if shutdown { Some(waker(2)) } else { None },
-                broker,
-                tx_wakers,
-                writable_waker: None,
-                metrics: None,
-            };
-            (ArcSender(Arc::new(Mutex::new(Ok(Sender::Sending(s))))), offs, cols, shutdown, 0)
-        } else {
-            let fin_state = any_fin_state();
-            let fc = fin_code(&fin_state);
-            let s = DataSentSender {
-                stream_id: sid,
-                sndbuf,
-                flush_waker: None,
-                shutdown_waker: Some(waker(2)),
-                broker,
-                tx_wakers,
-                fin_state,
-            };
-            (ArcSender(Arc::new(Mutex::new(Ok(Sender::DataSent(s))))), offs, cols, true, fc)
-        }
-    }
-
-    /// (written, max_data, map size) of the send buffer, if the sender still has one.
-    pub(crate) fn c11s_dims(&self) -> Option<(u64, u64, u64)> {
-        match self.sender().as_ref() {
-            Ok(Sender::Ready(s)) => Some((s.sndbuf.written(), s.sndbuf.max_data(), s.sndbuf.c11s_map_size())),
-            Ok(Sender::Sending(s)) => Some((s.sndbuf.written(), s.sndbuf.max_data(), s.sndbuf.c11s_map_size())),
-            Ok(Sender::DataSent(s)) => Some((s.sndbuf.written(), s.sndbuf.max_data(), s.sndbuf.c11s_map_size())),
-            _ => None,
-        }
-    }
-
     /// The stream's send window (the limit the peer advertised for it), if the sender still has a buffer.
     pub(crate) fn c11s_window(&self) -> Option<u64> {
-        match self.c11s_dims() {
-            Some((_w, m, _s)) => Some(m),
-            None => None,
-        }
-    }
-
-    /// 0 Ready, 1 Sending, 2 DataSent, 3 other, 4 poisoned
-    pub(crate) fn c11s_state(&self) -> u8 {
         match self.sender().as_ref() {
-            Ok(Sender::Ready(_)) => 0,
-            Ok(Sender::Sending(_)) => 1,
-            Ok(Sender::DataSent(_)) => 2,
-            Ok(_) => 3,
-            Err(_) => 4,
-        }
-    }
-
-    pub(crate) fn c11s_color_at(&self, x: u64) -> u8 {
-        match self.sender().as_ref() {
-            Ok(Sender::Ready(s)) => s.sndbuf.c11s_color_at(x),
-            Ok(Sender::Sending(s)) => s.sndbuf.c11s_color_at(x),
-            Ok(Sender::DataSent(s)) => s.sndbuf.c11s_color_at(x),
-            _ => panic!("no send buffer"),
+            Ok(Sender::Ready(s)) => Some(s.sndbuf.max_data()),
+            Ok(Sender::Sending(s)) => Some(s.sndbuf.max_data()),
+            Ok(Sender::DataSent(s)) => Some(s.sndbuf.max_data()),
+            _ => None,
         }
     }
 }
